@@ -141,7 +141,15 @@ def c15_r3(ctx):
     fru = [(bi, t) for bi, t in fsu.calls() if (t['callee'].get('path') or '').endswith('BufRead::read_until')]
     disc = [q.cond_of_block(facts, fsu, bi) for bi, t in fru]
     ctx.inst('FileSource::setup|discard-first-line', {'conditions': [show_dnf(d) for d in disc]})
-    uncond = bool(fru) and all(all(all(a[0] == 'cmp' and 'global_id' in (a[1] + a[2]) for a in c) for c in d) for d in disc)
+    import re as _re
+
+    def bare_gid(a):
+        # the test must be on the replica index itself (`global_id != 0`), not on a quantity derived from it
+        # (`start != 0` is equivalent only while file_size >= #replicas)
+        sides = [a[1], a[2]]
+        return a[0] == 'cmp' and any(_re.match(r'^\*?(metadata\.)?global_id$', x) for x in sides) and any(_re.match(r'^0_\w+$', x) for x in sides) \
+            and a[3] == frozenset(['<', '>'])
+    uncond = bool(fru) and all(all(all(bare_gid(a) for a in c) and c for c in d) for d in disc)
     if not ok or not uncond:
         ctx.viol('%s|boundary-pair' % nx.path, rl[0][1]['at'],
                  'FileSource must pair the inclusive continue test `current <= end` with an unconditional discard of the first '
@@ -246,3 +254,34 @@ def c18_r5(ctx):
             ctx.viol('%s|blocks-before-flush' % nx.path, t['at'],
                      'ChannelSource can block on recv() while retry_count <= MAX_RETRY, i.e. before it has emitted FlushBatch: an '
                      'element handed to the source would sit in a partial batch forever', None)
+
+
+@rule('C18', 'R6', 'ChannelSource state machine: between a returned Item and the blocking recv() a FlushBatch is always emitted')
+def c18_r6(ctx):
+    from ..opsum import automaton
+    from ..absint import Bound
+    facts = ctx.facts
+    nx = facts.method('renoir::operator::source::channel::ChannelSource', 'next', trait=OP)
+    try:
+        a = automaton(facts, nx)
+    except Bound as e:
+        raise Inconclusive(str(e))
+    g = a.g
+    blocking = {bi for bi, t in nx.calls() if (t['callee'].get('path') or '').endswith('::recv') and 'try' not in (t['callee'].get('path') or '')}
+    if not blocking:
+        raise AnchorMissing('ChannelSource::next has no blocking recv')
+
+    def ret_is(n, v):
+        return g.is_return(n) and a.ret_set(n) == frozenset([v])
+    starts = [m for (n, m) in g.activation_edges if ret_is(n, 'Item')]
+    reach = g.reachable(starts, avoid=lambda n: ret_is(n, 'FlushBatch') or ret_is(n, 'FlushAndRestart'))
+    bad = [n for n in reach if g.block(n) in blocking]
+    ctx.inst('ChannelSource automaton', {'nodes': len(g.nodes), 'activations after an Item': len(starts), 'blocking-recv nodes reached without FlushBatch': len(bad),
+                                         'retry_count values seen': sorted({v[1] for n in range(len(g.nodes)) for k, v in g.nodes[n][1] if 'retry_count' in k and v[0] == 'c'})})
+    if not starts:
+        raise Inconclusive('ChannelSource automaton has no `return Item`')
+    if bad:
+        p = g.path_to(bad[0], starts, avoid=lambda n: ret_is(n, 'FlushBatch') or ret_is(n, 'FlushAndRestart'))
+        ctx.viol('%s|blocks-without-flush' % nx.path, nx.blocks[g.block(bad[0])]['t']['at'],
+                 'after handing out an element the channel source can block in recv() without having emitted FlushBatch: the element stays '
+                 'in a partial batch of the source block for as long as no further input arrives', {'path': g.describe_path(p) if p else None})
